@@ -486,6 +486,15 @@ impl Ctx {
     /// Called before each case of the deterministic stream. Returns false if the case must be
     /// skipped (already done before a restart, or poisoned because it killed a worker).
     pub fn begin_case(&mut self, desc: impl FnOnce() -> String) -> bool {
+        // a worker whose supervisor is gone (killed, crashed) has nobody to report to: stop instead of burning CPU
+        static FIRST_PARENT: std::sync::atomic::AtomicU32 = std::sync::atomic::AtomicU32::new(0);
+        let parent = std::os::unix::process::parent_id();
+        let first = FIRST_PARENT.load(std::sync::atomic::Ordering::Relaxed);
+        if first == 0 {
+            FIRST_PARENT.store(parent, std::sync::atomic::Ordering::Relaxed);
+        } else if parent != first {
+            std::process::exit(0);
+        }
         let idx = self.counter;
         self.counter += 1;
         if idx < self.resume {
